@@ -241,6 +241,13 @@ func runC10() {
 			_ = body
 		}
 		_ = sh
+		if !srv.Alive() && srv.KilledFromOutside() {
+			rep.Inconclusive(fmt.Sprintf("case %d: the server was SIGKILLed from outside the check", i))
+			if !start() {
+				return
+			}
+			continue
+		}
 		if !srv.Alive() {
 			crash := srv.Crashed()
 			site := "unknown"
